@@ -282,6 +282,9 @@ func faultDrive(args []string) error {
 	sid := 0
 	for fi, fd := range formatDefs {
 		ins := crossInputs(fd.name, int64(7000+100*fi), 3*nIn, 0)
+		if maxBytes > 1000 { // thorough: also inputs of several KB (beyond bufio's buffer)
+			ins = append(ins, corpusFor(fd.name, int64(7050+100*fi), nIn, 40)...)
+		}
 		used := 0
 		for _, in := range ins {
 			if len(in.Data) == 0 || len(in.Data) > maxBytes || used >= nIn {
